@@ -19,7 +19,7 @@ CHECKS = {
  'C11': ('E2 templates: all paths (name orders) and hash iteration orders of one coincidence pattern yield identical observables', 'model_checking', '§4 C11'),
  'C16': ('E2 unit: every variant of a derived language (plain slots, Bind, nested Bind, Bind before/after/between free children, payload) with all slot positions symbolic through the macro-generated code and the Language default methods; per coincidence pattern the shape must equal an independent canonical form, bijection / apply_slotmap / idempotence / slots / public-private partition / syntax round trip; refresh_private: same term up to bound names, free occurrences untouched, bound names new', 'model_checking', '§4 C16'),
  'C17': ('E2 unit: one inductive step of Slot::fresh/numeric/named/Display from MIR from an arbitrary slot-table state under the quantified invariant; dev and release (wrapping) variants', 'model_checking', '§4 C17'),
- 'C18': ('E2: Pattern::parse recursive descent + derived from_syntax from MIR on every token sequence up to the bound (symbolic kinds / identifiers / slots) and tokenize+parse on every string of symbolic Unicode scalar values up to the bound: no panic, Ok values well formed; round-trip clause outside; RecExpr::parse from MIR on every accepted token sequence and short string; MultiPattern::parse on strings around valid and spliced multi-pattern texts (well-formedness); print/re-parse of every accepted class replayed natively', 'model_checking', '§4 C18'),
+ 'C18': ('E2: Pattern::parse recursive descent + derived from_syntax from MIR on every token sequence up to the bound (symbolic kinds / identifiers / slots) and tokenize+parse on every string of symbolic Unicode scalar values up to the bound: no panic, Ok values well formed; round-trip clause outside; RecExpr::parse from MIR on every accepted token sequence and short string; MultiPattern::parse on strings around valid and spliced multi-pattern texts (well-formedness); print/re-parse of every accepted class replayed natively; RecExpr::parse on every short string in a language with payload variants (u32 before Symbol; bare_language_child! from_syntax executed from MIR) against a reference recogniser: a printed payload is accepted and parses to the number / symbol it spells', 'model_checking', '§4 C18'),
  'C19': ('E2 unit: every public SlotMap method from MIR on maps of concrete size with symbolic slots, reference finite map as z3 ite-terms, queries for a fresh symbolic key; maps of 11-40 entries for one symbolic operation', 'model_checking', '§4 C19'),
  'C10': ('E2 unit: Group<SlotMap> from MIR with symbolic generator images, every permutation tuple a path admits compared with a brute-force closure (count, membership, enumeration, orbits, generators, add_set); e-graph level: symmetric-leaf templates; thorough: 5 slots with one symbolic generator next to a concrete one', 'model_checking', '§4 C10'),
  'C13': ('E2 unit: one canonicalisation step (find_applied_id with recursive path compression) from arbitrary union-find states of five chain shapes, oracle = pointwise composition; history level: monotonicity of eq / slots / progress over the template histories', 'model_checking', '§4 C13'),
